@@ -400,7 +400,58 @@ def fam_samenames(tier):
             yield ("samenames %s then %s" % (k1, k2), src)
 
 
-FAMILIES = [fam_binop, fam_unop, fam_slots, fam_builtins, fam_scope, fam_consts, fam_literals, fam_globals, fam_wellformed, fam_samenames]
+def fam_structperm(tier):
+    """struct literals: every field order x every assignment of value types to the named fields (3 fields of
+    distinct types); exactly the assignments that give each NAME its declared type are well typed"""
+    F = [("n", "int", "5"), ("s", "string", '"x"'), ("b", "bool", "true")]
+    vals = {"int": "5", "string": '"x"', "bool": "true"}
+    for order in itertools.permutations(range(3)):
+        for tys in itertools.product(("int", "string", "bool"), repeat=3):
+            lit = ", ".join("%s: %s" % (F[i][0], vals[tys[k]]) for k, i in enumerate(order))
+            ok = all(tys[k] == F[i][1] for k, i in enumerate(order))
+            body = ("    let z: T3 = T3 { %s }\n    (println (+ z.n 1))\n    (println (+ z.s \"!\"))\n    (println (not z.b))\n" % lit)
+            yield ("structperm order=%s types=%s%s" % ("".join(F[i][0] for i in order), ",".join(tys), " (well typed)" if ok else ""),
+                   prog(body, extra_top="struct T3 { n: int, s: string, b: bool }\n"))
+    # the same through a function parameter / return value / array element
+    for order in itertools.permutations(range(3)):
+        lit = ", ".join("%s: %s" % (F[i][0], F[i][2]) for i in order)
+        yield ("structperm-call order=%s" % "".join(F[i][0] for i in order),
+               prog("    (println (use3 T3 { %s }))\n    let r: T3 = (mk3)\n    (println r.s)\n" % lit,
+                    extra_top="struct T3 { n: int, s: string, b: bool }\nfn use3(t: T3) -> int { (println t.s) return (+ t.n 1) }\nshadow use3 { assert true }\n"
+                              "fn mk3() -> T3 { return T3 { %s } }\nshadow mk3 { assert true }\n" % lit))
+
+
+def fam_nestctl(tier):
+    """control-flow nesting: every (outer, inner) pair of {while, for, if, match arm, unsafe, nested function
+    containing a loop} with break / continue / early return in the inner construct, the nested function
+    defined and called INSIDE the outer construct (its loops must not disturb the enclosing loop's bookkeeping)"""
+    inner = {
+        "while-break": "let mut j: int = 0\n        while (< j 5) { set j (+ j 1)  if (== j 2) { break } else {} }\n        (println j)",
+        "while-continue": "let mut j: int = 0\n        let mut t: int = 0\n        while (< j 4) { set j (+ j 1)  if (== j 2) { continue } else {}  set t (+ t j) }\n        (println t)",
+        "for-break": "let mut t: int = 0\n        for j in (range 0 5) { if (== j 3) { break } else {}  set t (+ t j) }\n        (println t)",
+        "for-continue": "let mut t: int = 0\n        for j in (range 0 4) { if (== j 1) { continue } else {}  set t (+ t j) }\n        (println t)",
+        "nestedfn-while": "fn inner(k: int) -> int {\n            let mut j: int = 0\n            while (< j k) { set j (+ j 1)  if (== j 2) { continue } else {} }\n            return j\n        }\n        (println (inner 3))",
+        "nestedfn-for": "fn inner(k: int) -> int {\n            let mut t: int = 0\n            for j in (range 0 k) { if (== j 1) { continue } else {}  set t (+ t j) }\n            return t\n        }\n        (println (inner 4))",
+        "nestedfn-capture-loop": "fn inner(k: int) -> int {\n            let mut t: int = 0\n            for j in (range 0 k) { set t (+ t i) }\n            return t\n        }\n        (println (inner 2))",
+        "match": "match vun {\n            L(q) => { (println q.v) }\n            R(q) => { (println q.s) }\n        }",
+        "if-return": "if (== i 1) { (println 77) } else { (println 78) }",
+        "unsafe": "unsafe { (println i) }",
+    }
+    outer = {
+        "while": ("let mut i: int = 0\n    while (< i 3) {\n        set i (+ i 1)\n        %s\n        if (== i 2) { continue } else {}\n        (println i)\n    }\n    (println i)\n"),
+        "for": ("for i in (range 0 3) {\n        %s\n        if (== i 1) { continue } else {}\n        (println i)\n    }\n"),
+        "for-break": ("for i in (range 0 4) {\n        %s\n        if (== i 2) { break } else {}\n        (println i)\n    }\n"),
+        "if": ("let i: int = 1\n    if vbool {\n        %s\n    } else {\n        (println 0)\n    }\n"),
+        "match-arm": ("let i: int = 1\n    match vun {\n        L(qq) => {\n        %s\n        }\n        R(qq) => { (println 0) }\n    }\n"),
+        "nested-while-while": ("let mut i: int = 0\n    while (< i 2) {\n        set i (+ i 1)\n        let mut m: int = 0\n        while (< m 2) {\n        set m (+ m 1)\n        %s\n        }\n    }\n"),
+    }
+    for on, ot in outer.items():
+        for inn, it in inner.items():
+            body = "    " + (ot % it)
+            yield ("nestctl %s / %s" % (on, inn), prog(body))
+
+
+FAMILIES = [fam_binop, fam_unop, fam_slots, fam_builtins, fam_scope, fam_consts, fam_literals, fam_globals, fam_wellformed, fam_samenames, fam_structperm, fam_nestctl]
 
 # ------------------------------------------------------------------------------------------ running
 _ST = {}
